@@ -181,7 +181,7 @@ def split_trace(path, chunk):
 def validate_traces(paths, tag, timeout=900, module="Trace", xmx="2g"):
     """Run the trace specification over each file (one single-worker JVM per file, in parallel).
     Returns dict(records, consumed, bad=[{file, seq, op, why}], states, transitions, wall)."""
-    res = {"records": 0, "consumed": 0, "bad": [], "states": 0, "distinct": 0, "files": len(paths)}
+    res = {"records": 0, "consumed": 0, "bad": [], "states": 0, "distinct": 0, "files": len(paths), "cov": {}}
 
     def one(p):
         nrec = sum(1 for _ in open(p))
@@ -205,6 +205,8 @@ def validate_traces(paths, tag, timeout=900, module="Trace", xmx="2g"):
             for b in d["bad"]:
                 b["file"] = p
                 res["bad"].append(b)
+            for c, n in (d.get("cov") or {}).items():
+                res["cov"][c] = res["cov"].get(c, 0) + n
     return res
 
 
